@@ -60,7 +60,7 @@ Lemma FInv_dirtier : forall inp s s',
   (forall a b, sdirty s a b -> sdirty s' a b) ->
   (forall a b, sdirty s' a b -> In b (old_fwd s a)) ->
   (forall x, In x (s_visited s') ->
-     sverified s x \/ (forall c, In c (callers_of s x) -> sdirty s' c x /\ (nonfw c -> In c (s_visited s')))) ->
+     sverified s x \/ (nkind x <> KInput /\ forall c, In c (callers_of s x) -> sdirty s' c x /\ (nonfw c -> In c (s_visited s')))) ->
   FInv p rk inp s -> FInv p rk inp s'.
 Proof using Type.
   intros inp s s' Hn Hb Ht Hd1 Hd2 Hv HI.
@@ -82,9 +82,9 @@ Proof using Type.
   - intros n. rewrite (sn_verified _ _ Hg Ht), (sn_Good _ _ Hg). apply fi_G.
   - intros n F. rewrite !(sn_verified _ _ Hg Ht), (sn_reach _ _ Hg). apply fi_T.
   - intros n i. rewrite Hg, Ht. apply fi_V.
-  - intros x Hx. destruct (Hv x Hx) as [K|K].
+  - intros x Hx. destruct (Hv x Hx) as [K|[K0 K]].
     + left. apply (sn_verified _ _ Hg Ht). exact K.
-    + right. intros c Hcx. rewrite Hc in Hcx. apply K. exact Hcx.
+    + right. split; [exact K0|]. intros c Hcx. rewrite Hc in Hcx. apply K. exact Hcx.
 Qed.
 
 (** * dirty propagation, with a set of excused nodes *)
@@ -102,17 +102,19 @@ Lemma propagate_spec : forall fuel s work s',
   (forall a b, sdirty s' a b -> sdirty s a b \/ In a (callers_of s b)) /\
   (forall x, In x (s_visited s) -> In x (s_visited s')) /\
   (forall x, In x work -> In x (s_visited s')) /\
-  PVg s' [].
+  PVg s' [] /\
+  (forall x, In x (s_visited s') -> In x (s_visited s) \/ In x work \/ exists y, In x (callers_of s y)).
 Proof using Type.
   induction fuel as [|f IH]; intros s work s' H HP; [discriminate|]. cbn [propagate] in H.
   destruct work as [|x r].
   - inversion H. subst. repeat (split; [reflexivity|]). split; [auto|]. split; [auto|]. split; [auto|].
-    split; [intros x []|]. exact HP.
+    split; [intros x []|]. split; [exact HP|]. intros x Hx. left. exact Hx.
   - destruct (nmem x (s_visited s)) eqn:Ev.
     + apply nmem_In in Ev. apply IH in H.
-      * destruct H as (H1 & H2 & H3 & H4 & H5 & H6 & H7 & H8 & H9).
-        repeat (split; [assumption|]). split; [|exact H9].
-        intros y [<-|Hy]; [apply H7; exact Ev|apply H8; exact Hy].
+      * destruct H as (H1 & H2 & H3 & H4 & H5 & H6 & H7 & H8 & H9 & H10).
+        repeat (split; [assumption|]). split; [|split; [exact H9|]].
+        -- intros y [<-|Hy]; [apply H7; exact Ev|apply H8; exact Hy].
+        -- intros y Hy. destruct (H10 y Hy) as [K|[K|K]]; auto. right. left. right. exact K.
       * intros y Hy. destruct (HP y Hy) as [K|K]; [left; exact K|right].
         intros c Hc. destruct (K c Hc) as [K1 K2]. split; [exact K1|]. intro Hn.
         destruct (K2 Hn) as [K3|[<-|K3]]; auto.
@@ -126,9 +128,9 @@ Proof using Type.
       rewrite Hcal0 in *.
       assert (G' : forall a b, sdirty s2 a b <-> sdirty s a b \/ (b = x /\ In a (callers_of s x))) by exact G.
       clear G. apply IH in H.
-      * destruct H as (H1 & H2 & H3 & H4 & H5 & H6 & H7 & H8 & H9).
+      * destruct H as (H1 & H2 & H3 & H4 & H5 & H6 & H7 & H8 & H9 & H10).
         split; [congruence|]. split; [congruence|]. split; [congruence|]. split; [congruence|].
-        split; [intros a b K; apply H5; apply G'; auto|]. split; [|split; [|split; [|exact H9]]].
+        split; [intros a b K; apply H5; apply G'; auto|]. split; [|split; [|split; [|split; [exact H9|]]]].
         -- intros a b K. apply H6 in K. destruct K as [K|K].
            ++ apply G' in K. destruct K as [K|[-> K]]; auto.
            ++ right. rewrite Hcal in K. exact K.
@@ -136,6 +138,11 @@ Proof using Type.
         -- intros y [<-|Hy].
            ++ apply H7. rewrite E0. left. reflexivity.
            ++ apply H8. rewrite A. apply in_or_app. left. exact Hy.
+        -- intros y Hy. destruct (H10 y Hy) as [K|[K|[z K]]].
+           ++ rewrite E0 in K. destruct K as [<-|K]; [right; left; left; reflexivity|left; exact K].
+           ++ rewrite A in K. apply in_app_or in K. destruct K as [K|K]; [right; left; right; exact K|].
+              apply filter_In in K. right. right. exists x. apply K.
+           ++ right. right. exists z. rewrite <- Hcal. exact K.
       * intros y Hy. rewrite E0 in Hy. destruct Hy as [<-|Hy].
         -- right. intros c Hc. rewrite Hcal in Hc. split; [apply G'; auto|]. intro Hn.
            right. rewrite A. apply in_or_app. right. apply filter_In. split; [exact Hc|].
@@ -159,16 +166,22 @@ Lemma FInv_propagate : forall inp fuel s n s',
 Proof using Type.
   intros inp fuel s n s' HI H Hnv KF.
   assert (HP : PVg (sverified s) s [n]).
-  { intros x Hx. destruct (fi_PV _ _ _ _ HI x Hx) as [K|K]; [left; exact K|right].
+  { intros x Hx. destruct (fi_PV _ _ _ _ HI x Hx) as [K|[_ K]]; [left; exact K|right].
     intros c Hc. destruct (K c Hc) as [K1 K2]. split; [exact K1|]. intro Hn. left. auto. }
-  destruct (propagate_spec _ _ _ _ _ H HP) as (N1 & N2 & N3 & N4 & N5 & N6 & N7 & N8 & N9).
+  destruct (propagate_spec _ _ _ _ _ H HP) as (N1 & N2 & N3 & N4 & N5 & N6 & N7 & N8 & N9 & N10).
   assert (Hg : forall m, get_info s' m = get_info s m) by (intro m; unfold get_info; rewrite N1; reflexivity).
   assert (Hc : forall m, callers_of s' m = callers_of s m) by (intro m; unfold callers_of; rewrite N2; reflexivity).
   assert (HI' : FInv p rk inp s').
   { eapply FInv_dirtier; eauto.
     - intros a b K. apply N6 in K. destruct K as [K|K]; [eapply fi_dirty_edge; eauto|].
       apply (fi_bwd _ _ _ _ HI). exact K.
-    - intros x Hx. destruct (N9 x Hx) as [K|K]; [left; exact K|right].
+    - intros x Hx. destruct (N9 x Hx) as [K|K]; [left; exact K|].
+      assert (Hni : sverified s x \/ nkind x <> KInput).
+      { destruct (N10 x Hx) as [K0|[[<-|[]]|[y K0]]].
+        - destruct (fi_PV _ _ _ _ HI x K0) as [K1|[K1 _]]; auto.
+        - right. rewrite KF. discriminate.
+        - right. intro Ki. apply (fi_bwd _ _ _ _ HI) in K0. rewrite (input_no_fwd _ _ _ _ _ HI Ki) in K0. destruct K0. }
+      destruct Hni as [Hni|Hni]; [left; exact Hni|right]. split; [exact Hni|].
       intros c Hcx. rewrite <- Hc in Hcx. destruct (K c Hcx) as [K1 K2]. split; [exact K1|].
       intro Hn. destruct (K2 Hn) as [K3|[]]. exact K3. }
   split; [exact HI'|]. split; [exact N1|]. split; [exact N3|]. split; [exact N4|].
@@ -181,19 +194,19 @@ Proof using Type.
     - assert (Hnvb : ~ sverified s' b).
       { intro K. apply Hnv'. eapply (fi_T _ _ _ _ HI'); [exact K|]. apply reach_direct; assumption. }
       split; [|exact Hnvb].
-      destruct (fi_PV _ _ _ _ HI' n HnV) as [K1|K1]; [contradiction|].
+      destruct (fi_PV _ _ _ _ HI' n HnV) as [K1|[_ K1]]; [contradiction|].
       apply (K1 b); [apply (fi_bwd _ _ _ _ HI'); exact Hx|exact Hb].
     - destruct (IH Hx Hnd) as [IH1 IH2].
       assert (Hnvb : ~ sverified s' b).
       { intro K. apply Hnv'. eapply (fi_T _ _ _ _ HI'); [exact K|]. exists x. split; [econstructor; eauto|auto]. }
       split; [|exact Hnvb].
-      destruct (fi_PV _ _ _ _ HI' d IH1) as [K1|K1]; [contradiction|].
+      destruct (fi_PV _ _ _ _ HI' d IH1) as [K1|[_ K1]]; [contradiction|].
       apply (K1 b); [apply (fi_bwd _ _ _ _ HI'); exact Hd|exact Hb]. }
   split.
-  - intros c Hcn. destruct (fi_PV _ _ _ _ HI' n HnV) as [K1|K1]; [contradiction|].
+  - intros c Hcn. destruct (fi_PV _ _ _ _ HI' n HnV) as [K1|[_ K1]]; [contradiction|].
     apply (K1 c). apply (fi_bwd _ _ _ _ HI'). exact Hcn.
   - intros b a Hb [x (A & B & _)] Hab. destruct (Hup b x A B Hb) as [U1 U2].
-    destruct (fi_PV _ _ _ _ HI' b U1) as [K1|K1]; [contradiction|].
+    destruct (fi_PV _ _ _ _ HI' b U1) as [K1|[_ K1]]; [contradiction|].
     apply (K1 a). apply (fi_bwd _ _ _ _ HI'). exact Hab.
 Qed.
 End State.
